@@ -32,6 +32,8 @@ class Lane:
 
 class Interp:
     def __init__(self, fn, args, consts=None):
+        from .core import canon_function
+        fn = canon_function(fn)
         self.fn = fn
         self.env = dict(consts or {})
         for a, v in zip([a.arg for a in fn.args.args], args):
@@ -49,6 +51,11 @@ class Interp:
 
     def stmt(self, st):
         if isinstance(st, ast.Expr) and isinstance(st.value, ast.Constant):
+            return None
+        if isinstance(st, ast.Expr) and isinstance(st.value, ast.Call):
+            self.ev(st.value)  # a helper called for its checks
+            return None
+        if isinstance(st, ast.Pass):
             return None
         if isinstance(st, ast.Assert):
             self.asserts.append(ast.unparse(st.test))
@@ -118,6 +125,16 @@ class Interp:
             return self.env[e.id]
         if e.id in ("torch", "np"):
             return Opaque(e.id)
+        from .core import module_lookup
+        r = module_lookup(self.fn, e.id)
+        if isinstance(r, ast.FunctionDef):
+            return r
+        if isinstance(r, ast.Constant):
+            return r.value
+        if isinstance(r, (ast.Tuple, ast.List)) and all(isinstance(x, ast.Constant) or (isinstance(x, ast.UnaryOp) and isinstance(x.operand, ast.Constant)) for x in r.elts):
+            return tuple(self.ev(x) for x in r.elts)
+        if e.id == "None":
+            return None
         raise Unknown(f"name {e.id}")
 
     def ev_Tuple(self, e):
@@ -136,6 +153,11 @@ class Interp:
         l = self.ev(e.left)
         r = self.ev(e.comparators[0])
         op = e.ops[0]
+        if len(e.ops) == 1 and isinstance(op, (ast.Is, ast.IsNot)) and (l is None or r is None):
+            same = l is r
+            return same if isinstance(op, ast.Is) else not same
+        if len(e.ops) == 1 and isinstance(op, (ast.Is, ast.IsNot)) and (isinstance(l, (int, Mono, ATensor)) or isinstance(r, (int, Mono, ATensor))):
+            return isinstance(op, ast.IsNot)
         if len(e.ops) == 1 and isinstance(op, (ast.In, ast.NotIn)) and isinstance(r, (tuple, list)):
             if isinstance(l, int) and all(isinstance(x, int) or x is None for x in r):
                 return (l in r) if isinstance(op, ast.In) else (l not in r)
@@ -263,8 +285,11 @@ class Interp:
                 return tuple(args[0])
             if f.id == "len":
                 return len(args[0])
-            if f.id in self.env and isinstance(self.env[f.id], ast.FunctionDef):
-                hfn = self.env[f.id]
+            from .core import module_lookup
+            hfn = self.env.get(f.id) if isinstance(self.env.get(f.id), ast.FunctionDef) else module_lookup(self.fn, f.id)
+            if f.id in ("int", "bool") and len(args) == 1:
+                return args[0]
+            if isinstance(hfn, ast.FunctionDef):
                 names = [a.arg for a in hfn.args.args]
                 bound = dict(zip(names, args))
                 bound.update(kw)
